@@ -3,15 +3,15 @@ NEXT GenNext
 CONSTANTS
   Unit = 8
   TickMs = 125
-  Family = "fixed"
+  Family = "back"
   Bursts = {2}
-  Rates <- RatesFin
+  Rates <- Rate2
   SetRates <- NoRates
   Ns = {1, 2}
-  Dts <- GDtsQuick
+  Dts <- GDtsBack
   MaxEvents = 5
   MaxRes = 2
-  Kinds <- KAll
+  Kinds <- KNoDelay
   Deviation = "none"
 INVARIANT Emit
 CHECK_DEADLOCK FALSE
